@@ -33,12 +33,12 @@ Theorem C01_rule_settles_everyone : forall A cfg r,
 Proof. exact rule_decided. Qed.
 Print Assumptions C01_rule_settles_everyone.
 
-(* TERMINATION (first clause), proved for wigm (any options but defeat_batch=zero), wigm-prf, wigm-prf-batch and scotland,
-   under EVERY arithmetic (fixed, integer, guarded with any guard, rational) and every profile with distinct candidate
+(* TERMINATION (first clause), proved for the whole Gregory family -- wigm (any options but defeat_batch=zero), wigm-prf,
+   wigm-prf-batch, scotland, cfer, cfer-batch and mpls -- under EVERY arithmetic (fixed, integer, guarded with any guard, rational) and every profile with distinct candidate
    ids: once the fuel exceeds twice the number of candidates the model never answers OutOfFuel -- the count ends, normally
    or with one of the modelled exceptions.  (Measure: 2 x hopeful + transfer-pending candidates; statuses only move
    forward, and every pass of the main loop that neither raises nor leaves the loop transfers a surplus or excludes
-   somebody; Proofs/Terminate.v.)  [term_rule cfg r] = r is wigm with cf_batch_zero cfg = false, or wigm-prf, or scotland. *)
+   somebody; Proofs/Terminate.v.)  [term_rule cfg r] = r is wigm with cf_batch_zero cfg = false, or wigm-prf, scotland, cfer or mpls (the -batch variants are the same commands with cf_batch cfg = true). *)
 Theorem C01_gregory_counts_terminate_partial : forall A cfg r pr fuel,
   term_rule cfg r -> NoDup (map pc_cid (pr_cands pr)) ->
   (2 * List.length (pr_cands pr) < Pos.to_nat fuel)%nat ->
